@@ -41,13 +41,17 @@ unpatched code with cfg_orig.
 """
 import ast
 import json
+import locale
 import os
 import re
+import subprocess
 import shutil
 import sys
 import tempfile
 
-import env  # noqa: F401  (stubs + repo on sys.path)
+if __name__ == '__main__':            # the locale child (see run_child): started as a script
+    sys.path.insert(0, os.path.dirname(os.path.dirname(os.path.abspath(__file__))))
+import env  # noqa: F401,E402  (stubs + repo on sys.path)
 import common
 from session import coq_sx
 
@@ -106,6 +110,13 @@ PAYLOADS = [
     (False, {5, 6}),                                                        # unsupported type, top level
     (False, {'attr': {1: 0, 14: {'nlri': [b'\x80abc']}}, 'nlri': []}),      # deep inside
 ]
+# text that is not ASCII (a localised OS error handed to on_connection_failed, descriptions): appended
+PAYLOADS += [
+    (True, 'Verbindungsaufbau abgelehnt: Zeit\u00fcberschreitung \u2014 \u63a5\u7d9a\u304c\u62d2\u5426\u3055\u308c\u307e\u3057\u305f'),
+    (True, {'error': 'Cease', 'sub_error': 'Administrative Shutdown', 'data': 'Wartung bis 18\u00a0Uhr \U0001f6e0',
+            'cl\u00e9': ['\u00e9t\u00e9', '\u0416']}),
+]
+NONASCII = [len(PAYLOADS) - 2, len(PAYLOADS) - 1]
 GOOD = [i for i, p in enumerate(PAYLOADS) if p[0]]
 BAD = [i for i, p in enumerate(PAYLOADS) if not p[0]]
 
@@ -192,9 +203,14 @@ def peer_object(spelling):
 
 
 # peer addresses as they can be configured (oslo.config's IPOpt keeps the spelling)
+# the configuration value may also be any other legal TEXT of the address: zero groups written out,
+# leading zeros, `::` in another legal position, IPv4-mapped / -compatible forms in dotted or hex notation
 PEERS = ['10.0.0.2', '2001:db8::1', '2001:DB8::1', '2001:dB8:0:0:AbCd::F', 'FE80::ABCD:EF01', '::FFFF:10.0.0.2',
-         '2001:DB8:AAAA:BBBB:CCCC:DDDD:EEEE:FFFF']
+         '2001:DB8:AAAA:BBBB:CCCC:DDDD:EEEE:FFFF',
+         '2001:db8:0:0::1', '2001:0db8::0001', '2001:db8:0:0:0:0:0:1', '2001:db8::0:1', '2001:0DB8:0000::0:0001',
+         '0:0:0:0:0:0:0:1', '::ffff:0a00:0002', '::10.0.0.2', '2001:db8:0:0:1::', '2001:db8::1:0:0:0']
 PEERSTAT = {}
+WIRED = {}          # configured remote_addr -> factory.peer_addr of the real BGPPeering
 
 
 def coq_addr(a):
@@ -273,7 +289,11 @@ class World(object):
         self.thr = thr
         self.peer = peer
         self.key = peer.lower()
-        self.spellings = list(spellings or [peer])
+        # None: the callbacks get what the real caller passes -- a BGP protocol object built by a real
+        # BGPPeering made from the configuration as agent.prepare_twisted_service does (factory.peer_addr);
+        # a list: the check's own objects carrying these addresses, in turn
+        self.spellings = list(spellings) if spellings else None
+        self.factory = self.proto = None
         self.nspell = 0
         self.spelling = peer
         self.share = share
@@ -301,8 +321,8 @@ class World(object):
         if files is not None:
             os.makedirs(self.msgdir, exist_ok=True)
             for name, data in files.items():
-                with open(os.path.join(self.msgdir, name), 'w') as f:
-                    f.write(data)
+                with open(os.path.join(self.msgdir, name), 'wb') as f:
+                    f.write(data.encode('utf-8', 'surrogateescape'))
 
     def close(self):
         self.kill()
@@ -351,6 +371,16 @@ class World(object):
         finally:
             self.parsed = list(PARSED)
         self.h = h
+        self.wire(h)
+
+    def wire(self, h):
+        """the session layer of the agent: BGPPeering from the configuration, its protocol object"""
+        from yabgp.core.factory import BGPPeering
+        conf_addr = env.CONF.bgp.running_config['remote_addr'] if self.share is None else self.peer
+        self.factory = BGPPeering(myasn=65001, myaddr='10.0.0.1', peerasn=65002, peeraddr=conf_addr,
+                                  afisafi=[], md5=None, handler=h)
+        self.proto = self.factory.buildProtocol(type('Addr', (object,), {'host': conf_addr, 'port': 179})())
+        WIRED[conf_addr] = self.factory.peer_addr
 
     def kill(self):
         if self.h is not None:
@@ -368,8 +398,8 @@ class World(object):
             return []
         out = []
         for n in sorted(os.listdir(self.msgdir)):
-            with open(os.path.join(self.msgdir, n), 'r') as f:
-                out.append((n, f.read()))
+            with open(os.path.join(self.msgdir, n), 'rb') as f:      # the check's own view: octets, whatever
+                out.append((n, f.read().decode('utf-8', 'surrogateescape')))      # the locale or a cut character
         return out
 
     def tail_line(self):
@@ -385,7 +415,7 @@ class World(object):
         if not self.parsed:
             return [0, 0, Bytes(b''), Bytes(b'')]
         k, text = self.parsed[-1]
-        b = text.encode('utf-8') if isinstance(text, str) else bytes(text)
+        b = text.encode('utf-8', 'surrogateescape') if isinstance(text, str) else bytes(text)
         return [k, len(b), Bytes(b[:24]), Bytes(b[-4:])]
 
     def newest_empty_older_not(self):
@@ -397,7 +427,7 @@ class World(object):
         for _, data in self.read():
             ls = split_lines(data)
             files.append([[classify(t, term) for t, term in ls],
-                          bool(ls) and not ls[-1][1], len(data.encode('utf-8'))])
+                          bool(ls) and not ls[-1][1], len(data.encode('utf-8', 'surrogateescape'))])
         nxt = [self.h.msg_sequence[self.key]] if self.h is not None else []
         return [files, nxt, self.exits, self.nrep]
 
@@ -426,10 +456,13 @@ class World(object):
         calls0 = FSYNC['calls']
         if no_rotation:
             h.check_file_size = lambda peer: False      # the process dies before it gets there
-        spelling = self.spellings[self.nspell % len(self.spellings)]
-        self.nspell += 1
+        if self.spellings is None:
+            p, spelling = self.proto, self.factory.peer_addr
+        else:
+            spelling = self.spellings[self.nspell % len(self.spellings)]
+            self.nspell += 1
+            p = peer_object(spelling)
         self.spelling = spelling
-        p = peer_object(spelling)
         try:
             ty = self.dispatch(h, cb, p, spelling, ts, payload, rr)
         except Exception as e:             # "every reported event appends exactly one line"
@@ -501,6 +534,12 @@ class World(object):
             self.start()
             self.log('Restart')
             return
+        if ev[0] == 'locale':                    # the agent is stopped and started again in another environment
+            self.kill()                          # (only has an effect in the locale child: no UTF-8 mode there)
+            locale.setlocale(locale.LC_CTYPE, ev[1])
+            self.start()
+            self.log('Restart')
+            return
         cb, pid, wk = ev[1], ev[2], ev[3]
         if self.h is None:                       # the agent is not running: nothing happens
             if ev[0] == 'crash':
@@ -520,7 +559,8 @@ class World(object):
             # "every reported event appends exactly one line"
             should = cb != 'keepalive_received' or wk
             if self.count_lines() != nlines + (1 if should else 0):
-                self.problems.append('%s appended %d lines' % (cb, self.count_lines() - nlines))
+                self.problems.append('%s reported for peer address %r (configured remote_addr %r) appended %d lines'
+                                     % (cb, self.spelling, self.peer, self.count_lines() - nlines))
             self.log('Ev %s %s %d' % (self.coq_cb(cb, wk), 'true' if ok else 'false', max(sz, 2)))
             return
         # crash inside this callback's write at octet ev[4]
@@ -823,21 +863,21 @@ def address_cases(ctx, hists):
     thrs = [1 << 40, 1, 300]             # never / a rotation after every update / after every second one
     singles = []
     for p in PEERS:
-        variants = [[p]]
+        variants = [None]                          # None: through the real factory / protocol objects
         alts = [x for x in (p.lower(), p.upper(), p.swapcase()) if x != p]
         alts = [x for i, x in enumerate(alts) if x not in alts[:i]]
-        if alts:
+        if alts and (ctx.thorough or PEERS.index(p) < 7):
             variants += [[p] + alts, alts]         # spelling changes from event to event / never the configured one
         for sp in variants:
             for thr in thrs:
-                for h in (H if ctx.thorough or sp is variants[0] else H[:2]):
+                for h in (H if ctx.thorough or (sp is None and PEERS.index(p) < 7) else H[:2]):
                     singles.append((p, sp, thr, h))
     for h in hists:                                  # the histories of section 2 under another address
         p = rng.choice([x for x in PEERS if x != x.lower()])
         allr = [x for ev in h for x in (ev, R)]
         for thr in (1, 300):
-            singles.append((p, [p], thr, h + [R]))
-            singles.append((p, [p], thr, allr))
+            singles.append((p, None, thr, h + [R]))
+            singles.append((p, None, thr, allr))
     pairs = []
     PH = [
         [['ev', 0] + small[1:], ['ev', 1] + upd[1:], ['ev', 0] + upd[1:], ['ev', 1] + small[1:], ['ev', 0] + upd[1:], R,
@@ -851,6 +891,79 @@ def address_cases(ctx, hists):
             for h in PH:
                 pairs.append((ps, thr, h))
     return singles, pairs
+
+
+def locale_cases(ctx):
+    """histories run in a child process whose default text encoding is ASCII (LC_ALL=C, UTF-8 mode off,
+    no locale coercion), with payloads that contain non-ASCII text; ['locale', name] = the agent is
+    stopped, the environment changes, the agent is started again"""
+    small = ['ev', 'send_open', 0, True]
+    R = ['restart']
+
+    def na(cb, i=0):
+        return ['ev', cb, NONASCII[i], True]
+    out = []
+    for peer, thr in (('10.0.0.2', 1 << 40), ('2001:DB8::1', 1)) + ((('2001:db8:0:0::1', 300),) if ctx.thorough else ()):
+        hs = [
+            ('C', [small, na('on_connection_failed'), na('update_received', 1), na('notification_received', 1), R,
+                   small, na('on_connection_failed'), R]),
+            ('C.UTF-8', [na('on_connection_failed'), na('update_received', 1), ['locale', 'C'], small,
+                         na('on_connection_failed'), ['locale', 'C.UTF-8'], na('open_received', 1), R]),
+            ('C', [['ev', 'open_received', 5, True], ['ev', 'update_received', 7, True], na('on_update_error'),
+                   ['locale', 'C.UTF-8'], ['ev', 'update_received', 5, True], ['locale', 'C'], small, R]),
+        ]
+        if ctx.thorough:
+            hs += [
+                ('C.UTF-8', [na('update_received'), ['crash', 'on_connection_failed', NONASCII[0], True, 0],
+                             ['locale', 'C'], na('update_received', 1),
+                             ['crash', 'notification_received', NONASCII[1], True, 10 ** 9], small, R]),
+                ('C', [['ev', cb, NONASCII[i % 2], True] for i, cb in enumerate(CALLBACKS)] + [R, small, R]),
+            ]
+        for loc, evs in hs:
+            out.append({'thr': thr, 'files': None, 'events': evs, 'code': CODE, 'peer': peer, 'locale0': loc})
+    return out
+
+
+CHILD_ENV = {'LC_ALL': 'C', 'LANG': 'C', 'PYTHONUTF8': '0', 'PYTHONCOERCECLOCALE': '0', 'PYTHONHASHSEED': '0'}
+
+
+def run_child(cases):
+    """run the cases in a child process under the C locale; returns one result per case or raises"""
+    e = dict(os.environ)
+    e.update(CHILD_ENV)
+    p = subprocess.run([sys.executable, '-B', os.path.abspath(__file__), '--locale-child'], input=json.dumps(cases).encode(),
+                       stdout=subprocess.PIPE, stderr=subprocess.PIPE, env=e, timeout=600)
+    out = p.stdout.decode('ascii', 'replace')
+    m = re.search(r'^RESULT (.*)$', out, re.M)
+    if p.returncode != 0 or not m:
+        raise RuntimeError('locale child failed (rc %s): %s' % (p.returncode, p.stderr.decode('ascii', 'replace')[-1500:]))
+    return json.loads(m.group(1))
+
+
+def child_main():
+    """in the child: default encoding of open() is ASCII until a case switches LC_CTYPE"""
+    cases = json.loads(sys.stdin.read())
+    root = os.path.join(common.BUILD, 'run', 'C20', 'child')
+    os.makedirs(root, exist_ok=True)
+    os.fsync = _fsync
+    results = []
+    try:
+        setup()
+        for case in cases:
+            locale.setlocale(locale.LC_CTYPE, case['locale0'])
+            enc0 = locale.getencoding()
+            w, obs = run_case(root, case['thr'], None, case['events'], peer=case['peer'])
+            fails = w.audit()
+            kid, new = w.explain(fails) if fails else (None, None)
+            results.append({'fails': [f[0] for f in fails], 'known': kid, 'new': new, 'events': w.events,
+                            'hevents': w.hevents, 'obs': obs, 'nrep': w.nrep, 'tear': w.tear is not None,
+                            'encoding0': enc0, 'utf8_mode': sys.flags.utf8_mode,
+                            'files': [[n, len(d), d[:300].encode('ascii', 'backslashreplace').decode()] for n, d in w.read()]})
+            w.close()
+    finally:
+        locale.setlocale(locale.LC_CTYPE, 'C')
+        shutil.rmtree(root, ignore_errors=True)
+    print('RESULT ' + json.dumps(results))
 
 
 SUFFIX = [['ev', 'update_received', 1, True], ['ev', 'send_open', 0, True], ['restart']]
@@ -903,7 +1016,7 @@ RUNS = re.compile(rb'(.)\1{63,}', re.S)
 
 def coq_text(data):
     """file contents -> Coq term of type bytes; runs of 64 or more equal octets as `rep x n`"""
-    b = data.encode('utf-8')
+    b = data.encode('utf-8', 'surrogateescape')
     parts, i = [], 0
     for m in list(RUNS.finditer(b)) + [None]:
         j = m.start() if m else len(b)
@@ -922,7 +1035,7 @@ def coq_octets(files):
 
 def literal_cost(files):
     """octets that coq_octets would write out one by one"""
-    return sum(len(RUNS.sub(b'', d.encode('utf-8'))) for d in files.values())
+    return sum(len(RUNS.sub(b'', d.encode('utf-8', 'surrogateescape'))) for d in files.values())
 
 
 def coq_disk(files):
@@ -936,7 +1049,7 @@ def coq_disk(files):
             c = classify(t, term)
             cl.append({0: 'Full %d', 1: 'Torn', 2: 'Legacy %d', 3: 'Blank'}[c[0]] % tuple(c[1:]))
         fs.append('File [%s] %s %d' % ('; '.join(cl), 'true' if ls and not ls[-1][1] else 'false',
-                                       len(data.encode('utf-8'))))
+                                       len(data.encode('utf-8', 'surrogateescape'))))
     return '[%s]' % '; '.join(fs)
 
 
@@ -1145,6 +1258,24 @@ def run(ctx):
         for peers, thr, evs in pairs:
             w, obs = run_pair(root, thr, list(peers), evs)
             finish_addr(w, dict(describe(thr, None, evs), peers=list(peers)), obs, cases, violations, stats)
+        # 5. non-ASCII text in a process whose default encoding is ASCII (child process)
+        lcases = locale_cases(ctx)
+        for case, r in zip(lcases, run_child(lcases)):
+            stats['cases'] += 1
+            stats['locale_child_cases'] = stats.get('locale_child_cases', 0) + 1
+            stats['locale_child_encoding'] = [r['encoding0'], 'utf8_mode=%d' % r['utf8_mode']]
+            if r['fails']:
+                stats['failing'] = stats.get('failing', 0) + 1
+                violations.append({'what': '%s [child process LC_ALL=C PYTHONUTF8=0, LC_CTYPE %s at the start; peer %s; '
+                                           'threshold %d; history %s]' % (r['new'] or r['fails'][0], case['locale0'],
+                                                                          case['peer'], case['thr'], ' ; '.join(r['events'])),
+                                   'input': case, 'all': r['fails'][:6], 'known': r['known'],
+                                   'crashes': sum(1 for e in case['events'] if e[0] == 'crash')})
+            elif not r['tear']:
+                stats['passing_nontrivial'] += 1 if r['nrep'] >= 2 else 0
+            cases.append(('sx_htrace (htrace %s %d [%s] [%s])' % (CFG, case['thr'], coq_addr(case['peer']),
+                                                                 '; '.join(r['hevents'])),
+                          [[o] for o in r['obs']], case))
         stats['peer_addresses'] = {'single': len(singles), 'pairs_in_one_handler': len(pairs),
                                    'starts_by_configured_address': dict(PEERSTAT)}
         inv, extra_cbs = inventory()
@@ -1159,7 +1290,13 @@ def run(ctx):
     # correspondence in Coq
     if ctx.coq_ok:
         texts, starts = [], []
-        items = [('sx_inventory', inv, 'inventory')] + cases
+        from session import Bytes
+        wired = sorted(WIRED.items())
+        items = [('sx_inventory', inv, 'inventory'),
+                 ('SL [%s]' % '; '.join('SB (factory_peer_addr %s)' % coq_addr(a) for a, _ in wired),
+                  [Bytes(f.encode('ascii', 'replace')) for _, f in wired],
+                  {'what': 'factory.peer_addr of a real BGPPeering for every configured remote_addr',
+                   'configured': [a for a, _ in wired], 'factory': [f for _, f in wired]})] + cases
         cur, cur_len, start = [], 0, 0
         per = min(500, max(250, -(-len(items) // 15)))      # one wave of parallel coqc runs if possible
         for n, (m, o, _) in enumerate(items):               # a shard: at most `per` cases / 600 kB of text
@@ -1233,6 +1370,19 @@ def replay(ctx, obj):
     real_fsync = os.fsync
     os.fsync = _fsync
     try:
+        if case.get('locale0'):
+            r = run_child([case])[0]
+            print('child process LC_ALL=C PYTHONUTF8=0 (open() default %s at the start of the child)' % r['encoding0'])
+            for n, ln, head in r['files']:
+                print('file %s: %d characters  %s' % (n, ln, head[:200]))
+            print('history:', ' ; '.join(r['events']))
+            for f in r['fails']:
+                print('FAIL:', f)
+            if r['fails']:
+                print('known finding: %s' % r['known'] if r['known'] else 'VIOLATION property=C20')
+                return 0 if r['known'] else 1
+            print('audit passes')
+            return 0
         if case.get('peers'):
             pw, obs = run_pair(root, case['thr'], case['peers'], case['events'])
             w = ([x for x in pw.ws if x.audit()] or pw.ws)[0]
@@ -1242,7 +1392,7 @@ def replay(ctx, obj):
             w, obs = run_case(root, case['thr'], case.get('files'), case['events'],
                               peer=case.get('peer', PEER), spellings=case.get('spellings'))
         fails = w.audit()
-        print('peer address as configured: %s; callbacks arrive with: %s' % (w.peer, w.spellings))
+        print('peer address as configured: %s; callbacks arrive with: %s' % (w.peer, w.spellings or ('factory.peer_addr = %s' % (w.factory.peer_addr if w.factory else '?'))))
         for n, d in w.read():
             print('file %s: %d octets' % (n, len(d)))
             for t, term in split_lines(d):
@@ -1261,3 +1411,7 @@ def replay(ctx, obj):
         return 0 if kid else 1
     print('audit passes')
     return 0
+
+
+if __name__ == '__main__' and '--locale-child' in sys.argv:
+    child_main()
